@@ -99,6 +99,10 @@ func New(mode string, seed int64, nstr int) *Table {
 			nstr = len(t.Strs)
 		}
 		sort.Strings(t.Strs[:nstr])
+	case "tfdots":
+		// tree-form reads: the first two keys are path-safe, the others spell paths over them ("a.b" next to a -> b): a path
+		// must be resolved segment by segment, never looked up as one field name. Order as listed (no Sort in these configs).
+		t.Strs = []string{"a", "b", "a.b", "a#0", "b.a", "a.a"}
 	case "dots":
 		// keys that look like tree-form paths of each other: ".a" must not be read as the path to "a"
 		t.Strs = []string{".a", ".a.b", "a", "b", "#0", ".b"}
